@@ -40,6 +40,31 @@ func c10(w *core.World, r *core.Report) {
 	r.Rule("R10.7", "key-position tables well-formed", 3)
 	ruleKeyTables(w, r)
 
+	r.Rule("R10.8", "what is forwarded is the filter's projection, not the decoded argument list (both incremental parsers)", 2)
+	ruleNothingInventedParser(w, r)
+	if f := fn(w, r, "(*syncer.RedisOutput).parseAofReplayUnits"); f != nil {
+		isProj := isResultOf("*RedisKeyFilter).FilterCmdKey", 0)
+		isRaw := isResultOf("pkg/redis/client.ParseArgs", 1)
+		nProj, nRaw := 0, 0
+		var pos token.Pos = f.Pos()
+		for _, st := range core.Sites(f, false) {
+			// calls that build a command value: closures of the parser (makeCmd)
+			if st.Callee == nil || st.Callee.Parent() != f {
+				continue
+			}
+			for _, a := range st.Args() {
+				if isProj(a) {
+					nProj++
+				}
+				if isRaw(a) {
+					nRaw++
+					pos = st.Pos()
+				}
+			}
+		}
+		r.Check(nProj >= 1 && nRaw == 0, "parseAofReplayUnits/command-from-projection", pos, "the command put into a replay unit must be built from FilterCmdKey's projected arguments (%d site(s)); building it from the decoded arguments (%d site(s)) forwards keys the filter rejected", nProj, nRaw)
+	}
+
 	// The slot rule passes "exactly the configured set" only if the slot it
 	// computes is the cluster's: the slot-function rules of C11 are obligations
 	// of the slot filter too.
